@@ -299,6 +299,14 @@ def h_flow(t, part):
             answered['n'] = 2
         first_attempts = len(w.eio.connects)
         del ev[:]
+        if part.get('half_binary'):
+            # the connection is lost in the middle of a binary event: header and first attachment have arrived
+            with notrace():
+                w.c.on('bin', mk('bin', '/'), namespace='/')
+                w.c.on('ping', mk('ping', '/'), namespace='/')
+            frames = worlds.encode_frames(w.P(packet.EVENT, data=['bin', b'first', b'second'], namespace='/'))
+            for fr in frames[:2]:
+                run(w.eio.recv(fr))
         # ---- the connection ends, by one of four causes -------------------------------------------------------
         cause = part['cause']
         if cause == 'transport-error':
@@ -338,6 +346,9 @@ def h_flow(t, part):
         attempts = w.eio.connects[first_attempts:]
         if not asyncio_:
             w.eio.run_bg()
+        if part.get('half_binary') and any(e_[0] == 'bin' for e_ in ev):
+            return Fail('reconnect:half-received-binary-event-survives', 'the event that was half received when the connection was '
+                        'lost has been completed with frames of a later connection: %r' % ([e_ for e_ in ev if e_[0] == 'bin'],))
         if efforts['n'] != 1:
             return Fail('reconnect:concurrent-efforts=%d' % efforts['n'], 'script %r' % (answered['script'],))
         for a in attempts:
@@ -369,6 +380,12 @@ def h_flow(t, part):
                     want[ns] = 'sid%d' % k
             if sids != want and not early and not dropped['v']:
                 return Fail('reconnect:stale-sid-after-reconnect', 'client has %r, server issued %r last' % (sids, want))
+            if part.get('half_binary'):
+                # nothing of the half-received event is left: the first event of the new connection is just that
+                del ev[:]
+                w.send(w.P(packet.EVENT, data=['ping', 1], namespace='/'))
+                if ev != [('ping', '/', 1)]:
+                    return Fail('reconnect:half-received-binary-event-survives', 'first event of the new connection: handlers saw %r' % (ev,))
             # a further loss right after the success starts exactly one new effort
             if not asyncio_:
                 run(w.eio.lose())
@@ -431,6 +448,7 @@ def flow_parts(tier):
         out.append({'async': a, 'cause': 'transport-error', 'reconnection': True, 'early_loss': True})
         out.append({'async': a, 'cause': 'transport-error', 'reconnection': True, 'slow_disconnect_handler': True})
         out.append({'async': a, 'cause': 'transport-error', 'reconnection': True, 'again': True})
+        out.append({'async': a, 'cause': 'transport-error', 'reconnection': True, 'half_binary': True})
     return out
 
 
